@@ -139,7 +139,10 @@ func (s *PutStmt) Validate(ctx *CheckCtx) error {
 }
 
 func (s *PutStmt) validateKVPair(kv *PutKVPair, ctx *CheckCtx) error {
-	if err := kv.Key.Check(ctx); err != nil {
+	// The key of the pair does not exist yet while its expression is evaluated
+	kctx := *ctx
+	kctx.NotAllowKey = true
+	if err := kv.Key.Check(&kctx); err != nil {
 		return err
 	}
 	switch kv.Key.ReturnType() {
